@@ -27,7 +27,6 @@ import (
 	"github.com/ipfs/go-cid"
 	"github.com/ipld/go-ipld-prime/datamodel"
 	cidlink "github.com/ipld/go-ipld-prime/linking/cid"
-	"github.com/klauspost/compress/zstd"
 	"github.com/rpcpool/yellowstone-faithful/ipld/ipldbindcode"
 	"github.com/rpcpool/yellowstone-faithful/third_party/solana_proto/confirmed_block"
 	"github.com/rpcpool/yellowstone-faithful/zzverif/c14chain"
@@ -56,8 +55,6 @@ type c14AccCase struct {
 	Other   *c14chain.Spec  `json:"other,omitempty"`
 	SplitTx bool            `json:"split_tx_data"` // diagnostic: transaction payload in several frames
 }
-
-var c14ZstdNoCRC, _ = zstd.NewWriter(nil, zstd.WithEncoderCRC(false), zstd.WithEncoderLevel(zstd.SpeedDefault))
 
 func c14Canon(metaRaw []byte) ([]byte, error) {
 	var m confirmed_block.TransactionStatusMeta
@@ -292,7 +289,7 @@ func c14AccRun(rec *ev.Recorder, c c14AccCase) {
 	}
 	masked := true
 	for i := range got {
-		if i == c.FaultTx && got[i].Error != nil {
+		if i == c.FaultTx && got[i].Error != nil && len(c.Txs[i].MetaRaw) > 0 {
 			masked = false
 			rec.Count("fault_rejected_per_tx_"+fault, 1)
 			continue
@@ -340,8 +337,8 @@ func TestVerifC14Accum(t *testing.T) {
 	}
 	os.Remove(filepath.Join(dir, "m.car"))
 	txs := m.AllTxs()
-	nBlocks := ev.Pick(60, 1500)
-	layouts := []string{"schema", "schema", "schema-head", "tree", "tree"}
+	nBlocks := ev.Pick(250, 4000)
+	layouts := []string{"schema", "schema", "schema-head", "tree", "anytree"}
 	pos := 0
 	for bi := 0; bi < nBlocks && !rec.Enough(); bi++ {
 		n := 1 + rng.Intn(6)
@@ -353,8 +350,12 @@ func TestVerifC14Accum(t *testing.T) {
 			tx := txs[pos%len(txs)]
 			pos++
 			var metaZ []byte
-			if len(tx.MetaRaw) > 0 {
-				metaZ = c14ZstdNoCRC.EncodeAll(tx.MetaRaw, nil)
+			metaRaw := tx.MetaRaw
+			if pos%3 == 1 {
+				metaRaw = c14chain.FattenMeta(rng, metaRaw, []int{300, 1000, 5000, 20000, 70000, 200000}[(pos/3)%6])
+			}
+			if len(metaRaw) > 0 {
+				metaZ = c14chain.ZstdNoCRC(metaRaw)
 			} else {
 				metaZ = []byte{}
 			}
@@ -368,8 +369,10 @@ func TestVerifC14Accum(t *testing.T) {
 				k = 1
 			case 1:
 				k = 2 + rng.Intn(3)
+			case 2:
+				k = 2
 			}
-			c.Txs = append(c.Txs, c14AccTx{Raw: tx.Raw, MetaRaw: tx.MetaRaw,
+			c.Txs = append(c.Txs, c14AccTx{Raw: tx.Raw, MetaRaw: metaRaw,
 				Data: c14chain.Spec{Seed: c.Seed + int64(j)*7, Payload: tx.Raw, K: 1, Layout: "schema", Fanout: 1, Sum: sum, Split: "even"},
 				Meta: c14chain.Spec{Seed: c.Seed + int64(j)*7 + 1, Payload: metaZ, K: k, Layout: layouts[rng.Intn(len(layouts))], Fanout: 1 + rng.Intn(10), Shuffle: rng.Intn(3), Sum: sum, Split: []string{"even", "fixed", "random"}[rng.Intn(3)]},
 			})
